@@ -199,7 +199,7 @@ def names_api(run, ctx):
     if fn is not None:
         c = H.canon(fn["body"])
         n += 1
-        if not H.pat_match("let {v} = Vec::new(); {v}.resize(self.captures_len(),None); for ({nm},{i}) in self.named_groups.iter() {{v}[{i}] = Some({nm})}; CaptureNames({v}.into_iter())", c):
+        if not H.pat_match("let {v} = Vec::new(); {v}.resize(self.captures_len(),None); for ({nm},{i}) in self.named_groups {{v}[{i}] = Some({nm})}; CaptureNames({v}.into_iter())", c):
             run.violation(fam, label, "capture_names", H.where(fn), "capture_names must yield captures_len() entries with each name at its group's index, found %s" % c)
     fn = S.get_fn(run, ctx, "Captures::name", fam, label)
     if fn is not None:
